@@ -16,6 +16,7 @@ import (
 	"strconv"
 	"strings"
 	"sync"
+	"sync/atomic"
 	"time"
 
 	"github.com/jig/lisp"
@@ -61,7 +62,29 @@ func within(d time.Duration, f func()) bool {
 	}
 }
 
-const concWatchdog = 2 * time.Second
+// withinProgress runs f on its own goroutine; f calls tick() whenever it makes progress (one iteration of a
+// repeated witness).  false = no progress for `stall` (the goroutine is abandoned).  The verdict does not depend on
+// how long the whole loop takes, only on whether it still moves: a loaded machine makes it slow, not blocked.
+func withinProgress(stall time.Duration, f func(tick func())) bool {
+	var n int64
+	done := make(chan struct{})
+	go func() { defer close(done); f(func() { atomic.AddInt64(&n, 1) }) }()
+	last := int64(-1)
+	for {
+		select {
+		case <-done:
+			return true
+		case <-time.After(stall):
+			cur := atomic.LoadInt64(&n)
+			if cur == last {
+				return false
+			}
+			last = cur
+		}
+	}
+}
+
+const concWatchdog = 5 * time.Second
 
 // ---------------------------------------------------------------- witnesses
 
@@ -127,6 +150,9 @@ func init() {
 }
 
 func (e *concEngine) leanName() string { return "conc" }
+
+// repeated witnesses run up to 200000 iterations (thorough tier) and carry their own progress-based watchdogs
+func (e *concEngine) caseTimeout() time.Duration { return 10 * time.Minute }
 
 func (e *concEngine) wants(half string) bool { return e.half == "" || e.half == half }
 
